@@ -14,7 +14,8 @@ RULE = (
     "the no-category forms afterwards and once more at the end (history independence of the default-category "
     "resolution); db.GetDefaultCategory(u) equals the table's entry; X(c) == X(default value, default unit, c) for "
     "Scalar/FractionScalar (Array: empty container, FixedArray: unit and category); eval(repr(Scalar)) == Scalar for "
-    "finite values. Values are Hypothesis-generated per sweep. Non-trivial = unit whose default category comes from a "
+    "finite values, also for a subclass of Scalar; a unit with its own default category registered at run time in every "
+    "order relative to the categories and to early construction attempts ends with all forms equal. Values are Hypothesis-generated per sweep. Non-trivial = unit whose default category comes from a "
     "per-row default_category or differs from the quantity type name, or a category other than the default one; "
     "key = (class, form, unit, category)."
 )
@@ -185,7 +186,94 @@ class Checker:
         ctx.cls("categories_checked")
 
 
+def check_runtime_registration(ctx):
+    """Units and categories registered by the user at run time, in every order of (a) registering the category named
+    like the quantity type, (b) registering the unit's own default category, (c) attempting the no-category forms early:
+    once everything is registered all forms agree, whatever was attempted before."""
+    import itertools
+
+    from barril.units import Array, ObtainQuantity, Scalar, UnitDatabase
+
+    steps = ["cat_qt", "cat_default", "attempt"]
+    for order in itertools.permutations(steps):
+        for extra_attempts in (0, 1):
+            db = UnitDatabase()
+            with env.pushed(db):
+                db.AddUnitBase("bvq", "bv base", "bvb")
+                db.AddUnit("bvq", "bv unit", "bvu", "%f * 4.0", "%f / 4.0", default_category="bv own category")
+
+                def attempt():
+                    for f in (lambda: Scalar(1.5, "bvu"), lambda: Scalar((1.5, "bvu")), lambda: Array([1.5], "bvu"), lambda: ObtainQuantity("bvu")):
+                        try:
+                            f()
+                        except Exception as e:
+                            if core.tree_frame(e) is None:
+                                raise
+
+                for st_ in order:
+                    if st_ == "cat_qt":
+                        db.AddCategory("bvq", "bvq")
+                    elif st_ == "cat_default":
+                        db.AddCategory("bv own category", "bvq")
+                    else:
+                        attempt()
+                        if extra_attempts:
+                            attempt()
+                case = {"phase": "runtime", "order": list(order), "extra": extra_attempts}
+                ctx.ev()
+                try:
+                    forms = [
+                        ("(v,u)", Scalar(1.5, "bvu")),
+                        ("((v,u))", Scalar((1.5, "bvu"))),
+                        ("(v,u,c)", Scalar(1.5, "bvu", "bv own category")),
+                        ("(c,v,u)", Scalar("bv own category", 1.5, "bvu")),
+                        ("(q,v)", Scalar(ObtainQuantity("bvu", "bv own category"), 1.5)),
+                        ("(q(u),v)", Scalar(ObtainQuantity("bvu"), 1.5)),
+                        ("CreateWithQuantity", Scalar.CreateWithQuantity(ObtainQuantity("bvu", "bv own category"), 1.5)),
+                    ]
+                except Exception as e:
+                    if core.tree_frame(e) is None:
+                        raise
+                    ctx.record("runtime_registration_form_raises:%s" % type(e).__name__, case, "after registering in order %r a construction form raised %s: %s" % (order, type(e).__name__, str(e)[:120]))
+                    continue
+                n0, o0 = forms[0]
+                for name, o in forms[1:]:
+                    if not (o == o0):
+                        ctx.record("runtime_registration_forms_not_equal:%s_vs_%s" % (n0, name), case, "registration order %r: %s gives %r, %s gives %r" % (order, n0, o0, name, o))
+                        break
+                if db.GetDefaultCategory("bvu") != "bv own category" or o0.GetCategory() != "bv own category":
+                    ctx.record("runtime_registration_default_category", case, "order %r: default category of 'bvu' is %r, Scalar(v,u) has %r" % (order, db.GetDefaultCategory("bvu"), o0.GetCategory()))
+                arrs = [Array([1.5], "bvu"), Array([1.5], "bvu", "bv own category")]
+                if not (arrs[0] == arrs[1]):
+                    ctx.record("runtime_registration_forms_not_equal:Array", case, "order %r: Array(values,u) = %r, Array(values,u,c) = %r" % (order, arrs[0], arrs[1]))
+                ctx.cls("runtime_registration_orders")
+                ctx.nt_disjoint += 1
+
+
+def check_subclass_repr(ctx):
+    """a subclass of Scalar is a Scalar: its repr evaluates back to an equal object of the same class"""
+    from barril.units import Scalar
+
+    class BvDepth(Scalar):
+        pass
+
+    for v, u, c in ((1.5, "m", "length"), (-2.25, "ft", "depth"), (0.0, "degC", "temperature"), (1e-7, "cP", "dynamic viscosity")):
+        for form in (BvDepth(v, u, c), BvDepth(v, u), BvDepth(c, v, u), BvDepth.CreateWithQuantity(Scalar(v, u, c).GetQuantity(), v), BvDepth(v, u, c).CreateCopy(unit=u)):
+            ctx.ev()
+            case = {"phase": "subclass_repr", "v": v, "u": u, "c": c}
+            try:
+                back = eval(repr(form), {"BvDepth": BvDepth, "Scalar": Scalar})
+            except Exception as e:
+                ctx.record("subclass_repr_does_not_evaluate:%s" % type(e).__name__, case, "eval(%r) raised %s" % (repr(form), type(e).__name__))
+                continue
+            if not (back == form) or type(back) is not type(form):
+                ctx.record("subclass_repr_does_not_evaluate_back", case, "eval(%r) gives %r (%s), the original is a %s" % (repr(form), back, type(back).__name__, type(form).__name__))
+    ctx.cls("subclass_repr_checked")
+
+
 def run_shard(spec, ctx):
+    if spec["i"] == 0:
+        check_runtime_registration(ctx)
     db = env.new_db("posc")
     with env.pushed(db):
         ch = Checker(ctx, db)
@@ -217,15 +305,22 @@ def run_shard(spec, ctx):
         cats = sorted(db.IterCategories())
         for c in cats[spec["i"] :: spec["n"]]:
             ch.check_category(c)
+        if spec["i"] == 1:
+            check_subclass_repr(ctx)
         if snapshot.registry_light(db) != reg0:
             ctx.record("registry_changed_by_construction", {"phase": "registry"}, "constructing objects changed the registry")
 
 
 def replay(case, ctx):
+    if case.get("phase") == "runtime":
+        check_runtime_registration(ctx)
+        return ["%s: %s" % (k, v["msg"]) for k, v in ctx.violations.items()]
     db = env.new_db("posc")
     with env.pushed(db):
         ch = Checker(ctx, db)
-        if case.get("phase") == "category_only":
+        if case.get("phase") == "subclass_repr":
+            check_subclass_repr(ctx)
+        elif case.get("phase") == "category_only":
             ch.check_category(case["c"])
         elif "u" in case:
             ch.check_unit(case["qt"], case["u"], case["x"], case["y"])
